@@ -127,3 +127,36 @@ Qed.
 
 Lemma heq_upd_cell_gen i f a b : heq a b -> heq (upd_cell i f a) (upd_cell i f b).
 Proof. apply heq_upd_cell. Qed.
+
+(* ---- the live list iterator coincides with iteration over a snapshot when the body leaves the
+        iterated list alone ---- *)
+Lemma skipn_nth_some {A} (l : list A) i x : nth_error l i = Some x -> skipn i l = x :: skipn (S i) l.
+Proof.
+  revert i. induction l as [|y r IH]; intros [|i] H; simpl in *; try discriminate.
+  - inversion H. reflexivity.
+  - apply IH. exact H.
+Qed.
+
+Lemma skipn_nth_none {A} (l : list A) i : nth_error l i = None -> skipn i l = [].
+Proof.
+  revert i. induction l as [|y r IH]; intros [|i] H; simpl in *; try discriminate; try reflexivity.
+  apply IH. exact H.
+Qed.
+
+Lemma mfor_live_stable {S X V} (read : S -> list X) (body : X -> V -> S -> mres S (lctl V))
+      (l : list X) (P : S -> Prop) :
+  (forall s, P s -> read s = l) ->
+  (forall x v s v' s', In x l -> P s -> body x v s = MOk (LNext v') s' -> P s') ->
+  forall fuel i v s, P s -> (length l - i < fuel)%nat ->
+    mfor_live fuel read body i v s = mfor body (skipn i l) v s.
+Proof.
+  intros Hr Hp. induction fuel as [|fuel IH]; intros i v s HP Hf; [lia|].
+  simpl mfor_live. rewrite (Hr s HP).
+  destruct (nth_error l i) as [x|] eqn:En.
+  - rewrite (skipn_nth_some l i x En). simpl mfor.
+    assert (Hin : In x l) by (eapply nth_error_In; exact En).
+    assert (Hlt : (i < length l)%nat) by (apply nth_error_Some; rewrite En; discriminate).
+    destruct (body x v s) as [[v'|v'] s'|e s'|] eqn:Eb; try reflexivity.
+    apply IH; [eapply Hp; eassumption|lia].
+  - rewrite (skipn_nth_none l i En). reflexivity.
+Qed.
